@@ -108,6 +108,33 @@ theorem default_floor (g : PGraph) :
   obtain ⟨t, ht, hle⟩ := hd _ hm
   refine ⟨t, by simpa [fold] using ht, Nat.le_trans min_opset_ge_14 hle⟩
 
+/-- `IDENTITY_OPTIONAL_MIN_OPSET` as found in the source on this run is at least 16 (and not below the floor). -/
+theorem optional_min_ge_16 : 16 ≤ Generated.OpsetFacts.identityOptionalMin ∧
+    Generated.OpsetFacts.internalMinOpset ≤ Generated.OpsetFacts.identityOptionalMin := by decide
+
+/-- A model in which an optional-typed value is forwarded by an `_Introduce` — the result identities of the main
+    graph, of a body or of a function graph at any depth, or a user-level `intros` — imports the default domain
+    at 16 or above (the internal Identity nodes accept optional types only from 16 on). Together with
+    `default_floor`: never below 14, and never below 16 when an optional value is forwarded. -/
+theorem optional_floor (g : PGraph) (h : ∃ n ∈ allNodesG g, n.kind = .introOpt) :
+    ∃ v, lookup "" (buildModel genFacts g).imports = some v ∧ 16 ≤ v := by
+  obtain ⟨n, hn, hk⟩ := h
+  have hd : Dominates (buildModel genFacts g).imports (reqGraph genFacts g ++ []) := policy_dominates _
+  have hm : ("", genFacts.optionalMin) ∈ reqGraph genFacts g ++ [] := by
+    rw [List.append_nil]
+    exact (mem_reqGraph_iff genFacts _ g).mpr (Or.inr ⟨n, hn, by rw [hk]; simp [kindReq]⟩)
+  obtain ⟨t, ht, hle⟩ := hd _ hm
+  refine ⟨t, by simpa [fold] using ht, Nat.le_trans optional_min_ge_16.1 hle⟩
+
+/-- The floor of 14 does not depend on anything being optional: a program without any optional forwarding
+    still imports the default domain at 14 or above (this is `default_floor`; stated next to `optional_floor`
+    so that the pair reads as the property's clause). -/
+theorem floor_14_and_16 (g : PGraph) :
+    (∃ v, lookup "" (buildModel genFacts g).imports = some v ∧ 14 ≤ v) ∧
+      ((∃ n ∈ allNodesG g, n.kind = .introOpt) →
+        ∃ v, lookup "" (buildModel genFacts g).imports = some v ∧ 16 ≤ v) :=
+  ⟨default_floor g, optional_floor g⟩
+
 /-- …and so does every body and every function of it (each graph's own opsets). -/
 theorem default_floor_every_graph (extra : List Req) (g : PGraph) :
     ∃ v, lookup "" (opsetsOf genFacts extra g) = some v ∧ 14 ≤ v := by
@@ -226,6 +253,7 @@ theorem node_valid_at_import_partial (g : PGraph) (e : Entry)
   | inline imps hd => exact inline_valid ops imps hd np c subs i hdom
   | internal => simp [entryValid, PNode.kind]
   | intro => simp [entryValid, PNode.kind]
+  | introOpt => simp [entryValid, PNode.kind]
   | func d v => simp [entryValid, PNode.kind]
 
 /-- The decision itself never fails (`opsets[domain]` is always present) for shipped constructors. -/
@@ -255,6 +283,7 @@ theorem decision_total (g : PGraph) (e : Entry) (he : e ∈ (buildModel genFacts
     split <;> (try split) <;> simp_all
   | internal => simp [adaptBestEffort]
   | intro => simp [adaptBestEffort]
+  | introOpt => simp [adaptBestEffort]
   | func d v => simp [adaptBestEffort]
 
 /-- A shipped constructor is sent to the converter only when the schema in force at the imported
@@ -312,6 +341,7 @@ theorem convert_only_when_needed (g : PGraph) (e : Entry) (he : e ∈ (buildMode
       split at hc <;> cases hc
   | internal => simp [adaptBestEffort] at hc
   | intro => simp [adaptBestEffort] at hc
+  | introOpt => simp [adaptBestEffort] at hc
   | func d v => simp [adaptBestEffort] at hc
 
 /-! ## inlined models: conversion is decided by the default domain alone -/
@@ -392,6 +422,7 @@ theorem inline_target_is_import (g : PGraph) (e : Entry) (he : e ∈ (buildModel
     all_goals (first | cases hc | simp at hc)
   | internal => simp [adaptBestEffort] at hc
   | intro => simp [adaptBestEffort] at hc
+  | introOpt => simp [adaptBestEffort] at hc
   | func d v => simp [adaptBestEffort] at hc
 
 /-! ## nothing is remembered between builds (tie G inventory) -/
@@ -534,6 +565,9 @@ example : (buildModel genFacts mixedExample).main.all (fun e => decide (NodeOkB 
 example : (buildModel genFacts mixedExample).main.all
     (fun e => entryValid (buildModel genFacts mixedExample).imports e) = true := by decide +kernel
 example : (buildModel genFacts (.mk [])).imports = [("", 14)] := by decide +kernel
+/-- `build({"x": x}, {"o": op17.optional(x)})`: Optional-15 alone would give 15; the result identities forward an optional -/
+example : (buildModel genFacts (.mk [.mk (.op "" (opNo "Optional") 15) 1 true [] 1, .mk .introOpt 1 true [] 2])).imports = [("", 16)] ∧
+    (buildModel genFacts (.mk [.mk (.op "" (opNo "Optional") 15) 1 true [] 1])).imports = [("", 15)] := by decide +kernel
 example : (buildModel genFacts (renameG (· + 100) mixedExample)).main.map (·.node.id) = [101, 102, 103, 104, 105, 106, 107] ∧
     (buildModel genFacts (renameG (· + 100) mixedExample)).main.map (·.decision) =
       (buildModel genFacts mixedExample).main.map (·.decision) := by decide +kernel
